@@ -6,7 +6,7 @@
    Partial: that a call IS atomic (store mutex + one Badger update) is runtime
    behaviour, checked by the concurrent part of the harness only. *)
 From Coq Require Import List ZArith NArith Bool.
-Require Import Mixin.Base.Res Mixin.Model.GhostKeys Mixin.Model.Locks
+Require Import Mixin.Base.Res Mixin.Gen.Consts Mixin.Model.GhostKeys Mixin.Model.Locks
                Mixin.Proofs.GhostKeys Mixin.Proofs.Locks.
 Import ListNotations.
 Open Scope N_scope.
@@ -106,6 +106,10 @@ Example C03_ex_finalized :
   let s := run init (ex_seed ++ [Finalize 21]) in
   is_final s 21 = true /\ step s (LockInputs ex_b true) = (s, Err).
 Proof. vm_compute. repeat split. Qed.
+
+(* the index bound written in the model is the repository's input index limit *)
+Example C03_ex_index_limit : Z.of_N max_utxo_index = Consts.LockInputIndexLimit.
+Proof. reflexivity. Qed.
 
 Example C03_ex_render :
   render {| d_chain := 255; d_tx := [97; 58; 49]; d_index := 20 |} =
